@@ -384,10 +384,18 @@ func ruleTLSUse(c *Ctx) {
 			switch p.CalleeName(f, call) {
 			case modPath + ".dialGRPCConn":
 				nDial++
-				if n, ok := isOwnerTLS(info, call.Args[0]); ok {
+				// the TLS argument is the one of type *tls.Config, wherever it stands
+				tlsArg := call.Args[0]
+				for _, a := range call.Args {
+					if t := info.TypeOf(a); t != nil && t.String() == "*crypto/tls.Config" {
+						tlsArg = a
+						break
+					}
+				}
+				if n, ok := isOwnerTLS(info, tlsArg); ok {
 					c.R.Hold("R-TLS/use", p.Pos(call), f.Name, "dialGRPCConn TLS argument", "receives "+n, true)
 				} else {
-					c.R.Violate("R-TLS/use", p.Pos(call), f.Name, "dialGRPCConn TLS argument", "a gRPC connection to the plugin is dialled with "+exprStr(call.Args[0])+" instead of the owner's TLS configuration: with AutoMTLS this connection would be plaintext/unauthenticated", nil)
+					c.R.Violate("R-TLS/use", p.Pos(call), f.Name, "dialGRPCConn TLS argument", "a gRPC connection to the plugin is dialled with "+exprStr(tlsArg)+" instead of the owner's TLS configuration: with AutoMTLS this connection would be plaintext/unauthenticated", nil)
 				}
 			case modPath + ".newGRPCBroker":
 				nBroker++
